@@ -1,16 +1,19 @@
 #!/usr/bin/env python3
 """Confirm a seeded property-breaking change and run our checks against it.
 
-  tools/seedcheck.py <prop> <patch.diff> <demo.py> <seed-id> [--also C01,C02] [--tier quick]
+  tools/seedcheck.py <prop> <patch.diff> <demo.py> <seed-id> [--also C01,C02] [--tier quick] [--inplace] [--nosave]
 
 1. in a scratch worktree of /repo (outside /repo and /verif): the demo passes on the clean tree,
    the patch applies, the repository's own suite still reports 46 passed, the demo fails;
-2. the patch is applied to /repo, `./vf check <prop>` is run (plus --also), and undone;
-3. /verif/seeded/<seed-id>/{patch.diff, demo.py, meta.json} is written.
+2. `./vf check <prop>` (plus --also) is run against the changed sources.  Default: against the scratch worktree
+   (VF_REPO=<worktree>, evidence/replays redirected with VF_OUT so the committed evidence is not overwritten);
+   with --inplace the patch is applied to /repo itself (`git -C /repo apply`), the checks are run, and it is undone
+   (`git -C /repo checkout -- .`) -- the two are the same sources, --inplace is the way the brief describes;
+3. /verif/seeded/<seed-id>/{patch.diff, demo.py, meta.json} is written (unless --nosave).
+The scratch worktree is removed at the end.
 """
 import json
 import os
-import re
 import shutil
 import subprocess
 import sys
@@ -19,19 +22,22 @@ import time
 PY = '/venv/bin/python'
 
 
-def sh(cmd, cwd=None, env=None, timeout=1800):
+def sh(cmd, cwd=None, env=None, timeout=3600):
     p = subprocess.run(cmd, shell=True, cwd=cwd, env=env, stdout=subprocess.PIPE, stderr=subprocess.STDOUT, timeout=timeout)
     return p.returncode, p.stdout.decode(errors='replace')
 
 
+def opt(name, default=None):
+    if name in sys.argv:
+        return sys.argv[sys.argv.index(name) + 1]
+    return default
+
+
 def main():
     prop, patch, demo, sid = sys.argv[1:5]
-    also = []
-    tier = 'quick'
-    if '--also' in sys.argv:
-        also = sys.argv[sys.argv.index('--also') + 1].split(',')
-    if '--tier' in sys.argv:
-        tier = sys.argv[sys.argv.index('--tier') + 1]
+    also = [p for p in (opt('--also') or '').split(',') if p]
+    tier = opt('--tier', 'quick')
+    inplace = '--inplace' in sys.argv
     patch, demo = os.path.abspath(patch), os.path.abspath(demo)
     wt = '/tmp/sc-%d' % os.getpid()
     meta = {'property': prop, 'id': sid, 'ran': []}
@@ -40,6 +46,7 @@ def main():
     scratch = '/tmp/sc-run-%d' % os.getpid()
     os.makedirs(scratch)
     env = dict(os.environ, PYTHONPATH=wt, PYTHONHASHSEED='0')
+    results = {}
     try:
         rc0, out0 = sh('timeout 600 %s %s' % (PY, demo), cwd=scratch, env=env)
         meta['demo_on_clean_tree_exit'] = rc0
@@ -49,45 +56,61 @@ def main():
             print('PATCH DOES NOT APPLY', out)
         rc, out = sh('timeout 900 %s -m pytest -q -p no:cacheprovider --timeout=900 --continue-on-collection-errors 2>&1 | tail -1' % PY, cwd=wt, env=env)
         meta['suite_with_change'] = out.strip()
+        sh('rm -f foo.pkl', cwd=wt)
         rc1, out1 = sh('timeout 600 %s %s' % (PY, demo), cwd=scratch, env=env)
         meta['demo_with_change_exit'] = rc1
         meta['demo_with_change_output'] = out1[-600:]
+        ok = meta['demo_on_clean_tree_exit'] == 0 and meta['patch_applies'] and meta['demo_with_change_exit'] != 0 \
+            and '46 passed' in meta['suite_with_change'] and '3 failed' in meta['suite_with_change']
+        meta['confirmed'] = ok
+        print('confirmed' if ok else 'NOT CONFIRMED', json.dumps({k: meta[k] for k in ('demo_on_clean_tree_exit', 'suite_with_change', 'demo_with_change_exit')}))
+        if ok:
+            cenv = dict(os.environ)
+            cenv.pop('PYTHONPATH', None)
+            if inplace:
+                rc, out = sh('git -C /repo status --porcelain --untracked-files=no')
+                assert out.strip() == '', '/repo is dirty: %s' % out
+                rc, out = sh('git -C /repo apply %s' % patch)
+                assert rc == 0, out
+            else:
+                cenv['VF_REPO'] = wt
+            cenv['VF_OUT'] = os.path.join(scratch, 'out')
+            try:
+                for p in [prop] + also:
+                    t0 = time.time()
+                    rc, out = sh('timeout 3000 ./vf check %s --tier %s' % (p, tier), cwd='/verif', env=cenv)
+                    viol = [l for l in out.splitlines() if l.startswith('VIOLATION')]
+                    det = [l for l in out.splitlines() if l.startswith('  detail:')]
+                    results[p] = {'exit': rc, 'violations': len(viol), 'first_detail': det[0][:400] if det else '', 'wall_s': round(time.time() - t0, 1),
+                                  'tail': out[-300:] if rc not in (0, 1) else ''}
+                    print('  check %s: exit %d, %d violation line(s), %.0fs %s' % (p, rc, len(viol), time.time() - t0, det[0][:200] if det else ''))
+            finally:
+                if inplace:
+                    sh('git -C /repo checkout -- .')
     finally:
         sh('git -C /repo worktree remove --force %s' % wt)
         shutil.rmtree(scratch, ignore_errors=True)
-    ok = meta['demo_on_clean_tree_exit'] == 0 and meta['patch_applies'] and meta['demo_with_change_exit'] != 0 \
-        and '46 passed' in meta['suite_with_change'] and '3 failed' in meta['suite_with_change']
-    meta['confirmed'] = ok
-    print('confirmed' if ok else 'NOT CONFIRMED', json.dumps({k: meta[k] for k in ('demo_on_clean_tree_exit', 'suite_with_change', 'demo_with_change_exit')}))
-    results = {}
-    if ok:
-        rc, out = sh('git -C /repo status --porcelain --untracked-files=no')
-        assert out.strip() == '', '/repo is dirty: %s' % out
-        rc, out = sh('git -C /repo apply %s' % patch)
-        assert rc == 0, out
-        try:
-            for p in [prop] + also:
-                t0 = time.time()
-                rc, out = sh('timeout 2400 ./vf check %s --tier %s' % (p, tier), cwd='/verif')
-                viol = [l for l in out.splitlines() if l.startswith('VIOLATION')]
-                det = [l for l in out.splitlines() if l.startswith('  detail:')]
-                results[p] = {'exit': rc, 'violations': len(viol), 'first_detail': det[0][:400] if det else '', 'wall_s': round(time.time() - t0, 1),
-                              'tail': out[-300:] if rc not in (0, 1) else ''}
-                print('  check %s: exit %d, %d violation line(s), %.0fs %s' % (p, rc, len(viol), time.time() - t0, det[0][:160] if det else ''))
-        finally:
-            sh('git -C /repo checkout -- .')
     meta['checks'] = results
+    meta['tier'] = tier
     meta['detected_by'] = sorted(p for p, r in results.items() if r['exit'] == 1 and r['violations'] > 0)
+    if '--nosave' in sys.argv:
+        return 0 if meta.get('confirmed') else 1
     d = os.path.join('/verif/seeded', sid)
     os.makedirs(d, exist_ok=True)
-    shutil.copy(patch, os.path.join(d, 'patch.diff'))
-    shutil.copy(demo, os.path.join(d, 'demo.py'))
-    notes = patch.replace('patch', 'notes').replace('.diff', '.md')
-    if os.path.exists(notes):
-        meta['needs_to_manifest'] = open(notes).read()[:1500]
-    meta['ran'] = ['demo on clean scratch worktree', 'repository suite with change', 'demo with change', './vf check (quick) with the change applied to /repo, then git checkout -- .']
-    json.dump(meta, open(os.path.join(d, 'meta.json'), 'w'), indent=1)
-    return 0 if ok else 1
+    if os.path.abspath(os.path.dirname(patch)) != os.path.abspath(d):
+        shutil.copy(patch, os.path.join(d, 'patch.diff'))
+        shutil.copy(demo, os.path.join(d, 'demo.py'))
+    old = {}
+    mp = os.path.join(d, 'meta.json')
+    if os.path.exists(mp):
+        old = json.load(open(mp))
+    for k in ('summary', 'needs_to_manifest', 'origin', 'expected_detected_by', 'kept_because', 'design_note', 'history'):
+        if k in old and k not in meta:
+            meta[k] = old[k]
+    meta['ran'] = ['demo on clean scratch worktree', 'repository suite with change (46 passed required)', 'demo with change',
+                   './vf check --tier %s against the changed sources (%s)' % (tier, 'git -C /repo apply, then git checkout -- .' if inplace else 'scratch worktree via VF_REPO')]
+    json.dump(meta, open(mp, 'w'), indent=1, sort_keys=True)
+    return 0 if meta.get('confirmed') else 1
 
 
 if __name__ == '__main__':
